@@ -14,6 +14,9 @@ global size_of usize == 8;
 /// metrics::SharedString (Cow<'static, str>): an opaque value; spec equality stands for string equality
 #[verifier::external_body] pub struct SharedString { _p: [u8; 0] }
 pub uninterp spec fn ss(text: Seq<char>) -> SharedString;
+impl SharedString {
+    #[verifier::external_body] pub fn const_str(s: &'static str) -> (r: Self) ensures r == ss(s@) { unimplemented!() }
+}
 impl Clone for SharedString {
     #[verifier::external_body] fn clone(&self) -> (r: Self) ensures r == *self { unimplemented!() }
 }
@@ -398,6 +401,9 @@ impl<'a> Record<'a> {
 impl<'a> Context<'a> {
     pub uninterp spec fn spec_span(&self, id: &Id) -> Option<SpanRef<'a>>;
     #[verifier::external_body] pub fn span(&self, id: &Id) -> (r: Option<SpanRef<'a>>) ensures r == self.spec_span(id) { unimplemented!() }
+    /// the span entered on this thread right now (in general NOT the parent of a span being created)
+    pub uninterp spec fn spec_current(&self) -> Option<SpanRef<'a>>;
+    #[verifier::external_body] pub fn lookup_current(&self) -> (r: Option<SpanRef<'a>>) ensures r == self.spec_current() { unimplemented!() }
 }
 impl<'a> SpanRef<'a> {
     pub uninterp spec fn spec_parent(&self) -> Option<SpanRef<'a>>;
@@ -605,7 +611,7 @@ pub open spec fn admitted<F: LabelFilter>(flt: &F, name: &KeyName) -> spec_fn(Sh
 impl<R, F: LabelFilter> TracingContext<R, F> {
 // R29: the body of the closure handed to `.then(..)` inside enhance_key, lifted to a function (captures -> parameters)
 //@ITEM file=metrics-tracing-context/src/lib.rs sel=impl<R, F> TracingContext<R, F>.* :: fn enhance_key lift_after=.then(|| as=fn enhanced(&self, key: &Key, span_labels0: Map) -> Key ret=r
-//@REWRITE SPEC-closure re:\|key: &SharedString, value: &mut SharedString\| \{ ==> |key: &SharedString, value: &mut SharedString| -> (b: bool) ensures b == self.label_filter.admits(&name, &Label { k: *key, v: *old(value) }), *final(value) == *old(value) {
+//@REWRITE SPEC-closure re:\|(\w+): &SharedString, (\w+): &mut SharedString\| \{ ==> |\1: &SharedString, \2: &mut SharedString| -> (b: bool) ensures b == self.label_filter.admits(&name, &Label { k: *\1, v: *old(\2) }), *final(\2) == *old(\2) {
 //@REWRITE R30 re:(\w+)\.extend\((\w+)\.into_iter\(\)\.map\(Label::into_parts\)\) ==> shim_extend_labels(&mut \1, \2)
 //@REWRITE R20 re:(\w+)\s*\.into_iter\(\)\s*\.map\(\|\(key, value\)\| Label::new\(key, value\)\)\s*\.collect::<Vec<_>>\(\) ==> shim_collect_labels(\1)
 //@SPEC
